@@ -2,7 +2,7 @@ namespace occa {
   template <class T>
   json& json::set(const char *key,
                   const T &value) {
-    type = object_;
+    asObject();
     value_.object[key] = value;
     return *this;
   }
